@@ -19,6 +19,8 @@ FLOOR = 64.0
 ILL_CONDITIONED = 1e4
 DYNAMIC_RANGE = 1e30
 TOL_USER = 1e3
+ASYMPTOTIC = 1e-2
+C_X = 1e4
 
 
 def tol_for(table, method, n, bucket):
@@ -53,7 +55,7 @@ class C01(Prop):
             self.table = dc.load_constants().get('C01_tol', {})
         except Exception:
             self.table = {}
-        self.constants = {'FLOOR_eps_multiple': FLOOR, 'ILL_CONDITIONED': ILL_CONDITIONED, 'DYNAMIC_RANGE': DYNAMIC_RANGE, 'TOL_USER': TOL_USER, 'tol_table': 'nverif/constants.json:C01_tol'}
+        self.constants = {'FLOOR_eps_multiple': FLOOR, 'ILL_CONDITIONED': ILL_CONDITIONED, 'DYNAMIC_RANGE': DYNAMIC_RANGE, 'TOL_USER': TOL_USER, 'ASYMPTOTIC': ASYMPTOTIC, 'C_X': C_X, 'tol_table': 'nverif/constants.json:C01_tol'}
 
     def strategy(self, tier):
         return dc.derivative_case()
@@ -138,6 +140,28 @@ class C01(Prop):
                     ctx.count('mc%d-%s|%s|%s' % (n, tag, o, case['step']['kind']))
             if CALIBRATE and ratio > 0:
                 ctx.record('log10(err/U)|%s|%d' % (method, n), math.log10(ratio) if ratio < 1e300 else 300.0)
+            # user sequences all of whose windows are benign (worst-window unit below 1 % of the size
+            # of f^(n) on the certified disc: asymptotic truncation and harmless rounding everywhere) must also deliver the
+            # documented extrapolated order p + s*t (clause 'extrapolated-order'): a mis-paired
+            # Richardson stage leaves a lower power of h in the result, which the worst-window bound
+            # cannot see
+            asym = False
+            if bucket == 'user' and ev.Ux[j] is not None and ev.Umax[j] is not None:
+                rho2 = ev.analyses[j].rho_cert / 2.0
+                s_cert = ev.analyses[j].scale(n, rho2, rho2)      # size of f^(n) on the certified disc
+                asym = bool(s_cert and math.isfinite(s_cert) and ev.Umax[j][0] <= ASYMPTOTIC * s_cert)
+            if asym:
+                rx = excess / ev.Ux[j][0] if ev.Ux[j][0] > 0 else (0.0 if excess == 0 else math.inf)
+                ctx.track('err/U_x|asymptotic user|%s' % method, rx,
+                          dict(f=exprs.show(case['tree']), x=xv, n=n, order=order, step=case['step'], lib=lib,
+                               exact=exact, Ux=ev.Ux[j][0]))
+                ctx.count('asymptotic user sequence|%s' % method)
+                if rx > C_X and not CALIBRATE:
+                    raise Violation('extrapolated-order', '%s n=%d order=%d: lib=%r exact=%r |err|=%.3g > %g * U_x(%.3g) '
+                                    '+ floor(%.3g) for an asymptotic user step sequence (k_est=%d) at x=%r, f=%s'
+                                    % (method, n, order, lib, exact, err, C_X, ev.Ux[j][0], floor, ev.k_est, xv,
+                                       exprs.show(case['tree'])), method=method, n=n, order=order, ratio=rx,
+                                    bucket=bucket)
             if tol is None or CALIBRATE:
                 continue
             if ratio > tol:
